@@ -411,3 +411,32 @@ def decode_ms5_xsf(path):
         records.append((cfg, payload))
     return {'kappa': kappa, 'csw': csw, 'dF': dF, 'zF': zF, 'tmax': tmax, 'bnd': bnd,
             'records': records}
+
+
+# --------------------------------------------------------------------------
+# 4. pbp files  <prefix>r<k>.pbp.dat   (pyerrors.input.misc.read_pbp)
+#    header: int nrw ; int nfct[nrw] ; int nsrc[nrw]
+#    record: int nc ; for every irw, for every factor: two blocks of nsrc[irw] doubles, the reader averages the SECOND one
+# --------------------------------------------------------------------------
+
+def write_pbp(directory, prefix, replicas, nfct, nsrc, postfix='pbp'):
+    """payload[irw][factor] = (first block, second block), each nsrc[irw] numbers"""
+    directory = ensure_dir(directory)
+    nrw = len(nfct)
+    header = struct.pack('<i', nrw) + struct.pack('<%di' % nrw, *nfct) + struct.pack('<%di' % nrw, *nsrc)
+    out = []
+    for k in replicas:
+        fname = '%sr%d.%s.dat' % (prefix, k, postfix)
+        blobs = []
+        for rec in replicas[k]:
+            cfg, payload, _ = _norm_record(rec)
+            blob = struct.pack('<i', cfg)
+            for a in range(nrw):
+                for f in range(nfct[a]):
+                    for block in payload[a][f]:
+                        blob += struct.pack('<%dd' % nsrc[a], *block)
+            blobs.append((cfg, blob))
+        path = os.path.join(directory, fname)
+        hl, records = _write_file(path, header, blobs)
+        out.append(file_desc(path, hl, records, replica=k, rep_name=rep_name_rwms(fname)))
+    return out
